@@ -9,6 +9,7 @@
 -/
 import BlocV.Model.Interp
 import BlocV.Proofs.Lemmas.Interp
+import BlocV.Proofs.Lemmas.ErrRec
 
 namespace BlocV.C07
 open BlocV BlocV.Lemmas
@@ -60,13 +61,13 @@ theorem builtin_clause_matches :
 
 /-- Handler selection: when the body of a block raises error (c, a), the FIRST clause (in text order)
 that matches runs, from the state the error left with the error saved as the context's record (what `error` reads);
-its outcome — value, break/continue/return, or a new error — is the outcome of the block; the record is cleared when
-the clause ends without error (`handlerExit`). -/
+its outcome — value, break/continue/return, or a new error — is the outcome of the block; when the clause ends without error the
+record is set back to what it was when the error was caught (`handlerExit s'.lastErr`). -/
 theorem handler_selection (funcs : List Func) (depth fuel : Nat) (body : List Stmt) (catches : List (String × List Stmt))
     (s s' : St) (c : Nat) (a : Bytes) (n : String) (h : List Stmt)
     (hb : execList funcs depth fuel body s = (.err c a, s')) (hc : (c == oofCode) = false)
     (hm : catches.find? (fun cl => catchMatches cl.1 c a) = some (n, h)) :
-    execBlock funcs depth (fuel + 1) body catches s = handlerExit (execList funcs depth fuel h { s' with lastErr := (c, a) }) := by
+    execBlock funcs depth (fuel + 1) body catches s = handlerExit s'.lastErr (execList funcs depth fuel h { s' with lastErr := (c, a) }) := by
   simp [execBlock, hb, hc, hm]
 
 /-- No matching clause: the error leaves the block unchanged, for the next enclosing block or the host. -/
@@ -131,7 +132,7 @@ theorem inner_unmatched_reaches_outer (funcs : List Func) (depth fuel : Nat) (ib
     (hin : icatches.find? (fun cl => catchMatches cl.1 c a) = none)
     (hout : ocatches.find? (fun cl => catchMatches cl.1 c a) = some (n, h)) :
     execBlock funcs depth (fuel + 4) (.beginS ibody icatches :: rest) ocatches s =
-      handlerExit (execList funcs depth (fuel + 3) h { s' with lastErr := (c, a) }) := by
+      handlerExit s'.lastErr (execList funcs depth (fuel + 3) h { s' with lastErr := (c, a) }) := by
   have h1 : execBlock funcs depth (fuel + 1) ibody icatches (tick s) = (.err c a, s') :=
     unmatched_propagates funcs depth fuel ibody icatches _ s' c a hb hc hin
   have h2 : exec funcs depth (fuel + 2) (.beginS ibody icatches) s = (.err c a, s') := by
@@ -147,7 +148,7 @@ theorem inner_matching_handles (funcs : List Func) (depth fuel : Nat) (ibody : L
     (hbud : s.budget ≠ 0)
     (hb : execList funcs depth fuel ibody (tick s) = (.err c a, s')) (hc : (c == oofCode) = false)
     (hin : icatches.find? (fun cl => catchMatches cl.1 c a) = some (n, h)) :
-    exec funcs depth (fuel + 2) (.beginS ibody icatches) s = handlerExit (execList funcs depth fuel h { s' with lastErr := (c, a) }) := by
+    exec funcs depth (fuel + 2) (.beginS ibody icatches) s = handlerExit s'.lastErr (execList funcs depth fuel h { s' with lastErr := (c, a) }) := by
   rw [exec_begin funcs depth (fuel + 1) ibody icatches s hbud]
   exact handler_selection funcs depth fuel ibody icatches _ s' c a n h hb hc hin
 
@@ -160,26 +161,26 @@ theorem error_in_callee_reaches_callers_block (funcs : List Func) (depth fuel : 
     (c : Nat) (a : Bytes) (n : String) (h : List Stmt) (hbud : s.budget ≠ 0)
     (hf : funcs.find? (fun f => f.name == name && f.params.length == args.length) = some f)
     (hd : (depth == Gen.RECURSION_LIMIT) = false)
-    (ha : evalArgs funcs depth fuel args (takeCtx f (tick s)) = (.ok vals, s1))
-    (hcallee : execBlock funcs (depth + 1) fuel f.body f.catches (calleeInit f vals (cacheTake s.ctxCache f.key).1 s1) = (.err c a, sc))
+    (ha : evalArgs funcs depth fuel args (tick s) = (.ok vals, s1))
+    (hcallee : execBlock funcs (depth + 1) fuel f.body f.catches (calleeInit f vals s1) = (.err c a, sc))
     (hc : (c == oofCode) = false)
     (hm : catches.find? (fun cl => catchMatches cl.1 c a) = some (n, h)) :
     execBlock funcs depth (fuel + 5) (.doS (.fcall name args) :: rest) catches s =
-      handlerExit (execList funcs depth (fuel + 4) h
-        { s1 with out := sc.out, budget := sc.budget, ctxCache := cachePut sc.ctxCache f.key sc.lastErr, lastErr := (c, a) }) := by
+      handlerExit s1.lastErr (execList funcs depth (fuel + 4) h
+        { s1 with out := sc.out, budget := sc.budget, lastErr := (c, a) }) := by
   have hbud' : (s.budget == 0) = false := by simpa using hbud
   have h1 : callFunc funcs depth (fuel + 1) name args (tick s) =
-      (.err c a, { s1 with out := sc.out, budget := sc.budget, ctxCache := cachePut sc.ctxCache f.key sc.lastErr }) := by
+      (.err c a, { s1 with out := sc.out, budget := sc.budget }) := by
     rw [callFunc_unfold funcs depth fuel name args _ s1 f vals hf hd ha]
-    show finishCall f s1 (execBlock funcs (depth + 1) fuel f.body f.catches (calleeInit f vals (cacheTake s.ctxCache f.key).1 s1)) = _
+    show finishCall s1 (execBlock funcs (depth + 1) fuel f.body f.catches (calleeInit f vals s1)) = _
     rw [hcallee]
     rfl
   have h2 : exec funcs depth (fuel + 3) (.doS (.fcall name args)) s =
-      (.err c a, { s1 with out := sc.out, budget := sc.budget, ctxCache := cachePut sc.ctxCache f.key sc.lastErr }) := by
+      (.err c a, { s1 with out := sc.out, budget := sc.budget }) := by
     unfold tick at h1
     simp only [exec, hbud', Bool.false_eq_true, if_false, bind_app, eval, h1]
   have h3 : execList funcs depth (fuel + 4) (.doS (.fcall name args) :: rest) s =
-      (.err c a, { s1 with out := sc.out, budget := sc.budget, ctxCache := cachePut sc.ctxCache f.key sc.lastErr }) := by
+      (.err c a, { s1 with out := sc.out, budget := sc.budget }) := by
     simp only [execList, bind_app, h2]
   exact handler_selection funcs depth (fuel + 4) _ catches s _ c a n h h3 hc hm
 
@@ -222,7 +223,7 @@ theorem continues_after_handled (funcs : List Func) (depth fuel : Nat) (body res
     (hm : catches.find? (fun cl => catchMatches cl.1 c a) = some (n, h))
     (hh : execList funcs depth fuel h { s' with lastErr := (c, a) } = (.ok .norm, s2)) :
     execList funcs depth (fuel + 3) (.beginS body catches :: rest) s =
-      execList funcs depth (fuel + 2) rest { s2 with lastErr := LastErr.clear } := by
+      execList funcs depth (fuel + 2) rest { s2 with lastErr := s'.lastErr } := by
   have h1 := inner_matching_handles funcs depth fuel body catches s s' c a n h hbud hb hc hm
   rw [hh, handlerExit_ok] at h1
   simp only [execList, bind_app, h1, beq_self_eq_true, if_true, evalM_ite_app]
@@ -334,37 +335,98 @@ theorem handler_sees_its_error (funcs : List Func) (depth fuel k : Nat) (body : 
     (s s' : St) (c : Nat) (a : Bytes) (n : String) (h : List Stmt)
     (hb : execList funcs depth fuel body s = (.err c a, s')) (hc : (c == oofCode) = false)
     (hm : catches.find? (fun cl => catchMatches cl.1 c a) = some (n, h)) :
-    execBlock funcs depth (fuel + 1) body catches s = handlerExit (execList funcs depth fuel h { s' with lastErr := (c, a) }) ∧
+    execBlock funcs depth (fuel + 1) body catches s = handlerExit s'.lastErr (execList funcs depth fuel h { s' with lastErr := (c, a) }) ∧
     eval funcs depth (k + 1) .errorE { s' with lastErr := (c, a) } = (errorTuple (c, a), { s' with lastErr := (c, a) }) :=
   ⟨handler_selection funcs depth fuel body catches s s' c a n h hb hc hm, eval_error funcs depth k _⟩
 
-/- FULL STATEMENT asked for by the property ("with error@1/@2 describing it", for the whole clause): a handled INNER error does not
-   change what the outer clause reads for ITS error:
-     ∀ …, (exec funcs depth (fuel + 2) (.beginS ibody icatches) s).2.lastErr = s.lastErr
-   FALSE for the code: docatch ends with `ctx.error(RuntimeError())`, it does not restore the record it overwrote. Proved instead:
-   the negation, in general (`inner_handled_error_clears_record`) and at a witness run on the library
-   (`outer_handler_loses_its_error_witness`; finding C07.error_record_cleared_by_inner_handler). -/
-/-- **An inner block that handles an error of its own CLEARS the record** — whatever it was before, in particular the error of an
-enclosing clause that is still running. -/
-theorem inner_handled_error_clears_record_partial (funcs : List Func) (depth fuel : Nat) (ibody : List Stmt)
+/-- **An inner block that handles an error of its own RESTORES the record** (repo 72036d1): when its clause ends without error the
+record is again what it was when the inner error was caught — `s'.lastErr`, the record of the state the failing inner body left. When
+that failing body did not itself run through a FAILING clause its record is still the one the block started with (`hkeep`; for
+bodies without exception clauses: `record_kept_without_clauses`), so an enclosing clause that is still running reads ITS error
+again: `error@N` describes the clause's error before and after the inner block. -/
+theorem inner_handled_error_restores_record (funcs : List Func) (depth fuel : Nat) (ibody : List Stmt)
     (icatches : List (String × List Stmt)) (s s' s2 : St) (c : Nat) (a : Bytes) (n : String) (h : List Stmt) (fl : Flow)
     (hbud : s.budget ≠ 0)
     (hb : execList funcs depth fuel ibody (tick s) = (.err c a, s')) (hc : (c == oofCode) = false)
     (hin : icatches.find? (fun cl => catchMatches cl.1 c a) = some (n, h))
     (hh : execList funcs depth fuel h { s' with lastErr := (c, a) } = (.ok fl, s2)) :
-    exec funcs depth (fuel + 2) (.beginS ibody icatches) s = (.ok fl, { s2 with lastErr := LastErr.clear }) := by
-  rw [inner_matching_handles funcs depth fuel ibody icatches s s' c a n h hbud hb hc hin, hh, handlerExit_ok]
+    exec funcs depth (fuel + 2) (.beginS ibody icatches) s = (.ok fl, { s2 with lastErr := s'.lastErr }) ∧
+    (s'.lastErr = s.lastErr → (exec funcs depth (fuel + 2) (.beginS ibody icatches) s).2.lastErr = s.lastErr) := by
+  have e : exec funcs depth (fuel + 2) (.beginS ibody icatches) s = (.ok fl, { s2 with lastErr := s'.lastErr }) := by
+    rw [inner_matching_handles funcs depth fuel ibody icatches s s' c a n h hbud hb hc hin, hh, handlerExit_ok]
+  exact ⟨e, fun hk => by rw [e]; exact hk⟩
 
-/-- the witness: `begin raise E1; exception when E1 then print error@1 error@3; begin raise E2; exception when E2 then nop; end;
-print error@1 error@3; end;` prints `E11` and then `0`: after the inner block the clause of E1 no longer sees E1. -/
-theorem outer_handler_loses_its_error_witness :
+/-- **No clause entered ⇒ record unchanged** (every outcome): statements without exception clauses — loops, conditionals, blocks without
+clauses, calls of functions WITH clauses of their own — leave the context's error record exactly as they found it, whether they end
+normally, with break/continue/return, with an error, a hazard or out of fuel (`Lemmas.err_all`, fourth mutual induction). So does every
+expression. -/
+theorem record_kept_without_clauses (funcs : List Func) (depth fuel : Nat) (body : List Stmt) (s : St) (hb : noClauseL body = true) :
+    (execList funcs depth fuel body s).2.lastErr = s.lastErr :=
+  ((err_all funcs fuel).2.2.2.2.1 depth body hb).h s
+
+theorem expression_keeps_record (funcs : List Func) (depth fuel : Nat) (e : Expr) (s : St) :
+    (eval funcs depth fuel e s).2.lastErr = s.lastErr :=
+  ((err_all funcs fuel).1 depth e).h s
+
+/-- **Inside a clause `error@N` describes the clause's error before and after an inner block that handles an error of its own** — for
+every inner block whose BODY has no exception clauses (its clauses are arbitrary): the record after the block is the record before it.
+(For bodies with clauses that can fail the statement is false: `record_stale_after_failed_inner_clause_witness`.) -/
+theorem inner_block_keeps_enclosing_record (funcs : List Func) (depth fuel : Nat) (ibody : List Stmt)
+    (icatches : List (String × List Stmt)) (s s' s2 : St) (c : Nat) (a : Bytes) (n : String) (h : List Stmt) (fl : Flow)
+    (hbud : s.budget ≠ 0) (hnc : noClauseL ibody = true)
+    (hb : execList funcs depth fuel ibody (tick s) = (.err c a, s')) (hc : (c == oofCode) = false)
+    (hin : icatches.find? (fun cl => catchMatches cl.1 c a) = some (n, h))
+    (hh : execList funcs depth fuel h { s' with lastErr := (c, a) } = (.ok fl, s2)) :
+    (exec funcs depth (fuel + 2) (.beginS ibody icatches) s).2.lastErr = s.lastErr := by
+  apply (inner_handled_error_restores_record funcs depth fuel ibody icatches s s' s2 c a n h fl hbud hb hc hin hh).2
+  have := record_kept_without_clauses funcs depth fuel ibody (tick s) hnc
+  rw [hb] at this
+  exact this
+
+/-- **Inside a clause `error@N` describes the clause's error at EVERY point** of its body, whatever inner blocks handled errors of
+their own before that point, nested however deep inside their clauses — provided every block WITH exception clauses met on the way has
+a body WITHOUT exception clauses (`flatL`; what the clauses contain is arbitrary). `pre` is any prefix of the clause body that ended
+normally (or with a pending break/continue/return) from the state `st0` in which the clause started (record = the clause's error
+(c, a), `handler_selection`): at that point `error` still evaluates to `errorTuple (c, a)`. `Lemmas.ok_all`, fifth mutual induction.
+(Without the proviso: `record_stale_after_failed_inner_clause_witness`.) -/
+theorem error_describes_clause_error_at_every_point (funcs : List Func) (depth fuel k : Nat) (pre : List Stmt) (st0 s1 : St)
+    (c : Nat) (a : Bytes) (fl : Flow) (hflat : flatL pre = true) (h0 : st0.lastErr = (c, a))
+    (hrun : execList funcs depth fuel pre st0 = (.ok fl, s1)) :
+    eval funcs depth (k + 1) .errorE s1 = (errorTuple (c, a), s1) := by
+  have hk : s1.lastErr = st0.lastErr := ((ok_all funcs fuel).2.1 depth pre hflat).h st0 fl s1 hrun
+  rw [eval_error, hk, h0]
+
+/-- hypotheses at work: the clause of E1 runs `begin raise E2; exception when E2 then begin raise E3; exception when E3 then nop; end; end;` (a block
+whose clause holds another block) and then still reads E1 -/
+example : (execList [] 0 40 [.beginS [.raiseS "E1"] [("E1", [.beginS [.raiseS "E2"] [("E2", [.beginS [.raiseS "E3"] [("E3", [.nop])]])],
+      .printS [.item .errorE 1]])]] {}).2.out = [[10], [69, 49]] := by decide +kernel
+
+/-- regression witness of finding C07.error_record_cleared_by_inner_handler (fixed in 72036d1): `begin raise E1; exception when E1 then
+print error@1 error@3; begin raise E2; exception when E2 then nop; end; print error@1 error@3; end;` prints `E11` twice. -/
+theorem outer_handler_keeps_its_error_witness :
     (execList [] 0 30 [.beginS [.raiseS "E1"] [("E1", [.printS [.item .errorE 1, .item .errorE 3],
         .beginS [.raiseS "E2"] [("E2", [.nop])], .printS [.item .errorE 1, .item .errorE 3]])]] {}).2.out =
-      [[10], [48], [], [10], [49], [69, 49]] := by decide +kernel
+      [[10], [49], [69, 49], [10], [49], [69, 49]] := by decide +kernel
+
+/- FULL STATEMENT ("inside a clause error@N describes the clause's error at EVERY point, whatever inner blocks handled"):
+     ∀ funcs depth fuel body s fl s2, execList funcs depth fuel body s = (.ok fl, s2) → s2.lastErr = s.lastErr
+   STILL FALSE for the repaired code: docatch takes `outer = ctx.error()` when the error is CAUGHT, and an error that comes out of an
+   inner clause that FAILED carries that clause's record ("kept for debug") — which the catching block then "restores". Negation at a
+   witness run on the library: `record_stale_after_failed_inner_clause_witness` (finding C07.error_record_stale_after_failed_inner_clause).
+   Proved: the statement for one block (`inner_handled_error_restores_record`) and for all code without exception clauses, any
+   outcome (`record_kept_without_clauses`). -/
+/-- the witness: inside the clause of E0 a block whose body's inner clause (of E1) fails with E2 handles E2; afterwards the clause of E0
+reads E1: `begin raise E0; exception when E0 then print error@1; begin begin raise E1; exception when E1 then raise E2; end;
+exception when E2 then print error@1; end; print error@1; end;` prints E0, E2, E1. -/
+theorem record_stale_after_failed_inner_clause_witness :
+    (execList [] 0 40 [.beginS [.raiseS "E0"] [("E0", [.printS [.item .errorE 1],
+        .beginS [.beginS [.raiseS "E1"] [("E1", [.raiseS "E2"])]] [("E2", [.printS [.item .errorE 1]])],
+        .printS [.item .errorE 1]])]] {}).2.out =
+      [[10], [69, 49], [10], [69, 50], [10], [69, 48]] := by decide +kernel
 
 /-- **A clause that fails leaves the record as it is** ("kept for debug"): nothing clears it until another clause of the same context
 ends — so it is what `error` reads afterwards outside every handler (a later program in the same context; a later call that gets the
-same cached function context: C08 `call_depends_on_earlier_failed_call`). -/
+error is caught by an enclosing block — finding C07.error_record_stale_after_failed_inner_clause). -/
 theorem failed_handler_keeps_record (funcs : List Func) (depth fuel : Nat) (body : List Stmt) (catches : List (String × List Stmt))
     (s s' s2 : St) (c c2 : Nat) (a a2 : Bytes) (n : String) (h : List Stmt)
     (hb : execList funcs depth fuel body s = (.err c a, s')) (hc : (c == oofCode) = false)
@@ -429,60 +491,53 @@ theorem program_run_keeps_control_entries (funcs : List Func) (depth fuel : Nat)
     (execList funcs depth fuel prog s).2.ctl = s.ctl :=
   ((frame_all sameCtl_frame funcs fuel).2.2.2.2.1 depth prog).h s
 
-/- FULL STATEMENT for the interactive runner (C07: "after an error has been handled or reported, no control state of the interrupted
-   region survives"):   ∀ funcs fuel prog s, s.ctl = [] → (runInteractive funcs fuel prog s).2.ctl = []
-   FALSE for the code (apps/cli_parser.cpp executes the statement without Executable::run): negation at a witness, run on the library
-   through the probe op `istep` (finding C07.interactive_runner_keeps_control_entry); the symbolic form for `while` follows. -/
-/-- the witness: `zero = 0; while (1 / zero) > 0 loop nop; end loop; print "alive";` typed at the prompt: the `while` fails with
-DIVIDE_BY_ZERO, the session goes on — and the WHILE entry is still on the control stack at the end. -/
-theorem interactive_runner_leaves_residue_witness :
-    (let r := runInteractive [] 30 [.letS "zero" (.lit (.int 0)),
-        .whileS (.bin .gt (.bin .div (.lit (.int 1)) (.var "zero")) (.lit (.int 0))) [.nop], .printS [.lit (.str [97])]] {}
-     (r.1.map (fun x => match x with | .ok _ => 0 | .err c _ => c | _ => 999), r.2.ctl, r.2.out)) =
-    ([0, 23, 0], ["while"], [[10], [97]]) := by decide +kernel
+/-- **One statement under the interactive runner** (apps/cli_parser.cpp after 3db7ed2: the runner's handler calls `onRuntimeError`):
+it is the statement's ordinary execution; after a normal end the control entries are what they were, after ANY error there is none. -/
+theorem interactive_statement_outcome (funcs : List Func) (fuel : Nat) (st : Stmt) (s : St) :
+    (∀ fl s', exec funcs 0 fuel st s = (.ok fl, s') → stepTop funcs fuel st s = (.ok fl, s') ∧ s'.ctl = s.ctl) ∧
+    (∀ c a s', exec funcs 0 fuel st s = (.err c a, s') → stepTop funcs fuel st s = (.err c a, { s' with ctl := [] })) := by
+  have hk := ((frame_all sameCtl_frame funcs fuel).2.2.2.2.2.1 0 st).h s
+  constructor
+  · intro fl s' h
+    rw [h] at hk
+    exact ⟨by simp only [stepTop, purgeOnErr, h], hk⟩
+  · intro c a s' h
+    simp only [stepTop, purgeOnErr, h]
 
-/-- **Interactive runner, `while` whose condition fails** (first evaluation shown): the error reaches the runner with the WHILE entry
-stacked — `St.ctl` is one longer than before, for ANY condition, body, state and error. -/
-theorem interactive_while_condition_error_leaves_entry (funcs : List Func) (k : Nat) (c : Expr) (body : List Stmt) (s s' : St)
-    (code : Nat) (a : Bytes) (hbud : s.budget ≠ 0)
-    (hc : eval funcs 0 (k + 1) c { s with budget := s.budget - 1, ctl := "while" :: s.ctl } = (.err code a, s')) :
-    stepTop funcs (k + 1) (.whileS c body) s = (.err code a, s') ∧ s'.ctl = "while" :: s.ctl := by
-  have hbud' : (s.budget == 0) = false := by simpa using hbud
-  have hctl := ((frame_all sameCtl_frame funcs (k + 1)).1 0 c).h { s with budget := s.budget - 1, ctl := "while" :: s.ctl }
-  rw [hc] at hctl
-  refine ⟨?_, hctl⟩
-  unfold stepTop
-  simp only [hbud', Bool.false_eq_true, if_false]
-  show (ctlPush "while" >>= fun _ => whileLoop (eval funcs 0 (k + 1) c) (purgeOnErr (execList funcs 0 (k + 1) body)) (k + 1) >>=
-    fun fl => ctlPop >>= fun _ => pure fl) { s with budget := s.budget - 1 } = _
-  rw [bind_app]
-  show (whileLoop (eval funcs 0 (k + 1) c) (purgeOnErr (execList funcs 0 (k + 1) body)) (k + 1) >>= fun fl => ctlPop >>= fun _ => pure fl)
-    { s with budget := s.budget - 1, ctl := "while" :: s.ctl } = _
-  rw [bind_app]
-  have : whileLoop (eval funcs 0 (k + 1) c) (purgeOnErr (execList funcs 0 (k + 1) body)) (k + 1)
-      { s with budget := s.budget - 1, ctl := "while" :: s.ctl } = (.err code a, s') := by
-    simp only [whileLoop, bind_app, hc]
-  rw [this]
-
-/-- **Interactive runner, simple statements and blocks**: a statement that is neither a loop nor an `if` — an assignment, `do`, `print`,
-`raise`, a whole `begin … exception … end` block with everything nested in it — leaves the control entries exactly as they were,
-whatever its outcome: it creates no residue and removes none. -/
-theorem interactive_simple_statement_keeps_entries (funcs : List Func) (fuel : Nat) (st : Stmt) (s : St)
-    (hst : match st with | .whileS .. | .forS .. | .ifS .. | .forallS .. => False | _ => True) :
-    (stepTop funcs fuel st s).2.ctl = s.ctl := by
-  have key : ∀ x : St, (exec funcs 0 (fuel + 1) st x).2.ctl = x.ctl :=
-    fun x => ((frame_all sameCtl_frame funcs (fuel + 1)).2.2.2.2.2.1 0 st).h x
-  unfold stepTop
+theorem stepTop_no_residue (funcs : List Func) (fuel : Nat) (st : Stmt) (s : St) (h0 : s.ctl = []) :
+    (stepTop funcs fuel st s).2.ctl = [] := by
+  have hk := ((frame_all sameCtl_frame funcs fuel).2.2.2.2.2.1 0 st).h s
+  unfold SameCtl at hk
+  unfold stepTop purgeOnErr
   split
+  · rename_i a s' heq
+    rw [heq] at hk
+    exact hk.trans h0
   · rfl
-  · cases st <;> first | exact False.elim hst | (simp only []; rw [key])
 
-/-- hypotheses of `interactive_while_condition_error_leaves_entry` are satisfiable: `while 1/0 > 0 …` in a state with one stale entry -/
-example : (stepTop [] 10 (.whileS (.bin .gt (.bin .div (.lit (.int 1)) (.lit (.int 0))) (.lit (.int 0))) [.nop]) { ctl := ["for K"] }).2.ctl =
-    ["while", "for K"] := by decide +kernel
+/-- **No residue under the interactive runner** (the full statement; false before 3db7ed2 — finding
+C07.interactive_runner_keeps_control_entry, fixed): whatever statements are typed one after the other, whatever their outcomes
+(errors in loop headers, bodies, handlers, functions; `return` at the prompt), a session that starts with an empty control stack has
+an empty control stack after every statement. -/
+theorem interactive_runner_no_residue (funcs : List Func) (fuel : Nat) : ∀ (prog : List Stmt) (s : St), s.ctl = [] →
+    (runInteractive funcs fuel prog s).2.ctl = []
+  | [], s, h0 => h0
+  | st :: rest, s, h0 => by
+    have h1 := stepTop_no_residue funcs fuel st s h0
+    unfold runInteractive
+    cases hs : stepTop funcs fuel st s with
+    | mk r s' =>
+      rw [hs] at h1
+      simp only []
+      exact interactive_runner_no_residue funcs fuel rest { s' with returned := none } h1
 
-/-- a failing BODY at top level removes every entry (the body's `Executable::run` calls `onRuntimeError` at level 0), also stale ones -/
-example : (stepTop [] 10 (.whileS (.lit (.bool true)) [.raiseS "E"]) { ctl := ["for K"] }).2.ctl = [] := by decide +kernel
+/-- regression witness: `zero = 0; while (1 / zero) > 0 loop nop; end loop; print "alive";` at the prompt: DIVIDE_BY_ZERO is reported, the
+session goes on, nothing is left on the control stack; a `return` at the prompt ends its statement and the session goes on -/
+theorem interactive_runner_witness_fixed :
+    (let r := runInteractive [] 30 [.letS "zero" (.lit (.int 0)),
+        .whileS (.bin .gt (.bin .div (.lit (.int 1)) (.var "zero")) (.lit (.int 0))) [.nop], .returnS (some (.lit (.int 5))), .printS [.lit (.str [97])]] {}
+     (r.1.map (fun x => match x with | .ok .ret => 1 | .ok _ => 0 | .err c _ => c | _ => 999), r.2.ctl, r.2.out, r.2.returned.isNone)) =
+    ([0, 23, 1, 0], [], [[10], [97]], true) := by decide +kernel
 
 /-- `begin begin raise E1; exception when E2 then print "inner"; end; print "skipped"; exception when E1 then print "outer"; end; print "after";`:
 the inner block has no clause for E1, the outer one handles it; what follows runs normally. -/
